@@ -624,6 +624,7 @@ class ContractResult:
         self.error = None
         self.truncated = False
         self.vacuous = []
+        self.vacuity_time = 0.0
 
     def named(self):
         """name -> aggregated status over paths."""
@@ -642,7 +643,7 @@ class Verifier:
         self.results = []
 
     def prove(self, name, contract, functions=(), fsem="std", contracts=None, loop_hooks=None,
-              max_paths=None, crosscheck=True, setup_interp=None):
+              max_paths=None, crosscheck=True, setup_interp=None, path_solver=None):
         """Explore `contract` symbolically, discharge every VC, cross-check against CPython and
         replay counter-models natively."""
         res = ContractResult(name)
@@ -672,7 +673,7 @@ class Verifier:
             return "done"
 
         try:
-            cr = explore(name, run, fsem=fsem, max_paths=max_paths)
+            cr = explore(name, run, fsem=fsem, max_paths=max_paths, solver_options=path_solver)
         except Exception:
             res.error = "explore: " + traceback.format_exc(limit=8)
             self.results.append(res)
@@ -692,16 +693,17 @@ class Verifier:
                 continue        # `ensure(False)` on a branch: proving it IS proving the branch infeasible
             last[vc.path_id] = vc
         for pid_, vc in last.items():
-            if vc.status != "proved":
+            if vc.status != "proved" or res.vacuity_time > 3.0:
                 continue
             sv = z3.Solver()
-            sv.set("timeout", 2000)
+            sv.set("timeout", 800)
             for a in vc.assumptions:
                 sv.add(a)
             t1 = time.time()
             if sv.check() == z3.unsat:
                 res.vacuous.append(f"path{pid_} (at obligation {vc.name})")
             res.solver_time += time.time() - t1
+            res.vacuity_time += time.time() - t1
         # counter-models -> native replay
         searched = {}
         for vc in cr.vcs:
